@@ -431,15 +431,23 @@ def mcs_sel(l, key, a):
         return {"mode": d.mode(), "sample": d.sample(key), "slp_s": s, "slp_lp": slp, "lp_of_a": d.log_prob(a)}
 
 
+def mcs_sel3(l, key, a):
+    with stubs.prng_stubs():
+        d = MultiCategorical(l, action_dims=(2, 3, 2))
+        s, slp = d.sample_and_log_prob(key)
+        return {"mode": d.mode(), "sample": d.sample(key), "slp_s": s, "slp_lp": slp, "lp_of_a": d.log_prob(a)}
+
+
 def sec_discrete_select(ck, Ks):
     from props.C16 import xeq_arr
     cases = [(f"categorical", f"K={K}", cat_sel, jnp.zeros(K), jnp.array(0, jnp.int8), [(0, K)], lambda l, a: Categorical(logits=l).log_prob(a)) for K in Ks]
     cases += [("bernoulli", "n=2", bern_sel, jnp.zeros(2), jnp.zeros(2, jnp.int8), [(0, 2), (0, 2)], lambda l, a: Bernoulli(logits=l).log_prob(a)),
-              ("multicat", "dims=(2,3)", mcs_sel, jnp.zeros(5), jnp.zeros(2, jnp.int8), [(0, 2), (0, 3)], lambda l, a: MultiCategorical([l[:2], l[2:]]).log_prob(a))]
+              ("multicat", "dims=(2,3)", mcs_sel, jnp.zeros(5), jnp.zeros(2, jnp.int8), [(0, 2), (0, 3)], lambda l, a: MultiCategorical([l[:2], l[2:]]).log_prob(a)),
+              ("multicat", "dims=(2,3,2)", mcs_sel3, jnp.zeros(7), jnp.zeros(3, jnp.int8), [(0, 2), (0, 3), (0, 2)], lambda l, a: MultiCategorical(l, action_dims=(2, 3, 2)).log_prob(a))]
     for name, tag, fn, l0, a0, ranges, lpref in cases:
         tr = trace(fn, l0, jr.key(0), a0, argnames=["l", "key", "a"], label=f"{name}: mode/sample/sample_and_log_prob/log_prob")
         ck.encoded(tr)
-        if tag in ("K=3", "n=2", "dims=(2,3)"):
+        if tag in ("K=3", "n=2", "dims=(2,3)", "dims=(2,3,2)"):
             concrete.validate(ck, tr, n=2, seed=ck.seed, gen=lambda n, av, rng: (jnp.zeros(av.shape, av.dtype) if n == "a" else None))
         it = XRInterp()
         S = tr.symbols(it)
@@ -471,6 +479,51 @@ def sec_discrete_select(ck, Ks):
         gc = xeq_arr(it.o, out["slp_lp"], o2["lp_of_a"])
         ck.notes.append(f"{name}@{tag}: sample(key) and sample_and_log_prob(key)[0] are the same term: {isconc(xeq_arr(it.o, out['slp_s'], out['sample'])) and bool(xeq_arr(it.o, out['slp_s'], out['sample']))}")
         ck.prove(f"{name}.sample_logprob_consistent@{tag}", asm, gc, replay=judge_replay(tr, S, it.uf_apps, jcons), margin_goal=mg(tame, gc))
+
+
+# ===================================================================== product law with classes of probability exactly zero (XREAL: log 0 = -inf, 0 * inf = NaN)
+def mc_zero_probs(q):
+    d = MultiCategorical(probs=[q[:2], q[2:]])
+    comps = [Categorical(probs=q[:2]), Categorical(probs=q[2:])]
+    return {"ent": d.entropy(), "ent_components": comps[0].entropy() + comps[1].entropy(), "mass": jnp.sum(jnp.stack([d.prob(jnp.array([i, j])) for i in range(2) for j in range(3)]))}
+
+
+def mc_zero_masked(l, m):
+    d = MultiCategorical([l[:2], l[2:]]).mask(m)
+    comps = [Categorical(logits=l[:2]).mask(m[:2]), Categorical(logits=l[2:]).mask(m[2:])]
+    return {"ent": d.entropy(), "ent_components": comps[0].entropy() + comps[1].entropy(), "mass": jnp.sum(jnp.stack([d.prob(jnp.array([i, j])) for i in range(2) for j in range(3)]))}
+
+
+def sec_zero_mass(ck):
+    """entropy = -E[log p] is defined (0 log 0 = 0) and is the sum over the components also when classes have probability exactly 0 (probs with zeros, masked laws)"""
+    from props.C16 import xeq
+    cases = [("probs_with_zeros", mc_zero_probs, (jnp.ones(5) / 2,), ["q"]), ("masked", mc_zero_masked, (jnp.zeros(5), jnp.ones(5, bool)), ["l", "m"])]
+    for tag, fn, ex, names in cases:
+        tr = trace(fn, *ex, argnames=names, label=f"MultiCategorical(2,3) with zero-probability classes ({tag}): entropy, component entropies, total mass")
+        ck.encoded(tr)
+        it = XRInterp()
+        S = tr.symbols(it)
+        out = tr.run(it, S)
+        if tag == "masked":
+            l, m = list(S["l"]), list(S["m"])
+            asm = [z3.Or(m[0], m[1]), z3.Or(m[2], m[3], m[4])] + [z3.And(x >= -4, x <= 4) for x in l]
+            zero = z3.Or([z3.Not(x) for x in m])
+            tame = [z3.Not(m[0]), m[1], m[2], z3.Not(m[3]), m[4]] + [x == 0 for x in l]
+        else:
+            q = list(S["q"])
+            asm = [x >= 0 for x in q] + [q[0] + q[1] > 0, q[2] + q[3] + q[4] > 0]
+            zero = z3.Or([x == 0 for x in q])
+            tame = [q[0] == 0, q[1] == 1, q[2] == Fraction(1, 2), q[3] == 0, q[4] == Fraction(1, 2)]
+        ent, entc = out["ent"][()], out["ent_components"][()]
+
+        def judge(outs, ins):
+            e, ec, ms = float(outs["ent"]), float(outs["ent_components"]), float(outs["mass"])
+            bad = (not np.isfinite(e)) or abs(e - ec) > 1e-3 * (1 + abs(ec)) or abs(ms - 1) > 1e-3
+            return bad, {"entropy": e, "sum_of_component_entropies": ec, "total_mass_over_the_support": ms}
+        rp = judge_replay(tr, S, it.uf_apps, judge)
+        g = conj([it.o.fin(ent), xeq(it.o, ent, entc)])
+        ck.prove(f"multicat.entropy_defined_and_sum_of_components@{tag}", asm, g, replay=rp, margin_goal=implies(conj(tame), g))
+        ck.witness(f"witness.multicat.zero_mass_classes_reachable@{tag}", asm + [zero])
 
 
 # ===================================================================== product laws: the components are drawn independently
@@ -918,6 +971,8 @@ def main():
             sec_flat_eq_sequence(ck, dims)
     with ck.section("discrete samplers"):
         sec_discrete_select(ck, [2, 3] if not ck.thorough else [2, 3, 4, 6])
+    with ck.section("zero-mass classes"):
+        sec_zero_mass(ck)
     with ck.section("independent components"):
         sec_independent_components(ck)
     with ck.section("normal"):
